@@ -1,4 +1,16 @@
 import SigmaVerif.Model.Gate
+import SigmaVerif.Lemmas.C13Run
+import SigmaVerif.Lemmas.C13Doc
+/-!
+# C13 — a pipeline item acts exactly where its conditions hold
+
+Part 1 (`Gate`): how the truth values of individual conditions are combined (linking, negation,
+expressions, the three levels, "no conditions ⇒ always", what later items observe).
+Part 2 (`PipeConds`): the documented meaning of every built-in condition (`Spec/PipeConds.lean`), the
+documented effect of the pre-items on what later conditions see, and the end-to-end statements
+`spec_flags_eq_gate_run` / `probe_acts_iff` tying the two together.  The regular-expression match is
+a parameter `m` of every statement (all theorems hold for every `m`).
+-/
 namespace SigmaVerif.Props.C13
 open SigmaVerif.Gate
 
@@ -58,5 +70,358 @@ theorem run_length (items : List Item) (conds : Nat → List Nat → Nat → Boo
   induction items generalizing k applied with
   | nil => simp [run]
   | cons it rest ih => simp [run, ih]
+
+/-! ## Part 2: the meaning of the individual conditions -/
+section Conds
+open SigmaVerif.PipeConds SigmaVerif.Lemmas.C13
+variable (m : Str → Str → Bool)
+
+/-- on a field name, `exclude_fields` is exactly the complement of `include_fields` (both modes) -/
+theorem exclude_is_complement_of_include (w : World) (fs : List Str) (re : Bool) (n : Option Str) :
+    FieldCond.onName m w n (.excl fs re) = !FieldCond.onName m w n (.incl fs re) := rfl
+
+/-- on a detection item, `exclude_fields` holds iff NOT ALL of the names in the item (its field and
+the fields referenced in its values) are on the list — whereas `include_fields` holds iff SOME name
+is on the list.  With a field reference they are therefore not complements: -/
+theorem exclude_on_item_iff (w : World) (fs : List Str) (re : Bool) (it : DetItem) :
+    FieldCond.onItem m w it (.excl fs re) =
+      !(included m fs re it.field && it.refs.all fun r => included m fs re (some r)) := by
+  simp [FieldCond.onItem, FieldCond.onName, Bool.not_and, List.not_all_eq_any_not]
+
+theorem include_on_item_iff (w : World) (fs : List Str) (re : Bool) (it : DetItem) :
+    FieldCond.onItem m w it (.incl fs re) =
+      (included m fs re it.field || it.refs.any fun r => included m fs re (some r)) := by
+  simp [FieldCond.onItem, FieldCond.onName]
+
+/-- without field references in the item they are complements -/
+theorem exclude_on_item_complement_without_refs (w : World) (fs : List Str) (re : Bool) (it : DetItem)
+    (h : it.refs = []) :
+    FieldCond.onItem m w it (.excl fs re) = !FieldCond.onItem m w it (.incl fs re) := by
+  simp [FieldCond.onItem, FieldCond.onName, h]
+
+/-- the witness (`refItem`): an item `a = [fieldref b]`; `include_fields [a]` holds (through the field) and
+`exclude_fields [a]` holds as well (through the reference) -/
+theorem exclude_on_item_not_complement_witness :
+    FieldCond.onItem (fun _ _ => false) emptyWorld refItem (.incl ["a".toList] false) = true ∧
+    FieldCond.onItem (fun _ _ => false) emptyWorld refItem (.excl ["a".toList] false) = true := by decide
+
+/-- `negate` of `match_string` flips the outcome of each value, before `any`/`all`:
+`all`+negate is "no value matches" = not(`any`), and `any`+negate is "some value does not match" =
+not(`all`) -/
+theorem match_string_negate_flips_each_value (w : World) (it : DetItem) (p : Str) :
+    DetCond.eval m w it (.matchString true p true) = !DetCond.eval m w it (.matchString false p false) ∧
+    DetCond.eval m w it (.matchString false p true) = !DetCond.eval m w it (.matchString true p false) := by
+  have hf : matchStringVal m p true = fun v => !matchStringVal m p false v := by
+    funext v; simp [matchStringVal]
+  simp [DetCond.eval, quantify, hf, List.not_any_eq_all_not, List.not_all_eq_any_not]
+
+/-- … so negate is NOT the negation of the condition: on a matching and a non-matching value,
+`all` fails with and without negate (and `any` succeeds with and without) -/
+theorem match_string_negate_is_not_negation_witness :
+    let m : Str → Str → Bool := fun _ s => s == "x".toList
+    let it : DetItem := { det := [], field := some "f".toList, values := [.str (SStr.parse "x".toList), .str (SStr.parse "y".toList)], applied := [] }
+    DetCond.eval m emptyWorld it (.matchString true [] false) = false ∧
+    DetCond.eval m emptyWorld it (.matchString true [] true) = false ∧
+    DetCond.eval m emptyWorld it (.matchString false [] false) = true ∧
+    DetCond.eval m emptyWorld it (.matchString false [] true) = true := by decide
+
+/-- only strings can match: a number, a null, a reference never matches `match_string` (so with
+negate they always "match") -/
+theorem match_string_skips_non_strings (p : Str) (neg : Bool) (v : Val) (h : ∀ s, v ≠ .str s) :
+    matchStringVal m p neg v = neg := by
+  cases v <;> simp_all [matchStringVal]
+
+/-- a state key that was never set matches under no relation — at all three levels -/
+theorem processing_state_missing_key_false (w : World) (key : Str) (val : Scalar) (op : Op)
+    (h : lookup key w.state = none) (it : DetItem) (n : Option Str) :
+    RuleCond.eval w (.state ⟨key, val, op⟩) = false ∧
+    DetCond.eval m w it (.state ⟨key, val, op⟩) = false ∧
+    FieldCond.onName m w n (.state ⟨key, val, op⟩) = false ∧
+    FieldCond.onItem m w it (.state ⟨key, val, op⟩) = false := by
+  simp [RuleCond.eval, DetCond.eval, FieldCond.onName, FieldCond.onItem, StateCond.eval, h]
+
+/-- … and `ne` is not an exception: (`ne` on a set key is the negation of `eq`) -/
+theorem processing_state_ne_is_not_eq (st : List (Str × Scalar)) (key : Str) (val v : Scalar)
+    (h : lookup key st = some v) :
+    StateCond.eval st ⟨key, val, .ne⟩ = !StateCond.eval st ⟨key, val, .eq⟩ := by
+  simp [StateCond.eval, h, Op.eval?]
+
+/-- relations between a state value and a parameter of the same kind are the usual ones: `gte` is
+`lte` flipped, `gt` is not-`lte`, `lt` is not-`gte` -/
+theorem processing_state_order (st : List (Str × Scalar)) (key : Str) (val v : Scalar)
+    (h : lookup key st = some v) (hd : (v.le? val).isSome ∧ (val.le? v).isSome) :
+    StateCond.eval st ⟨key, val, .gt⟩ = !StateCond.eval st ⟨key, val, .lte⟩ ∧
+    StateCond.eval st ⟨key, val, .lt⟩ = !StateCond.eval st ⟨key, val, .gte⟩ := by
+  obtain ⟨h1, h2⟩ := hd
+  obtain ⟨a, ha⟩ := Option.isSome_iff_exists.mp h1
+  obtain ⟨b, hb⟩ := Option.isSome_iff_exists.mp h2
+  simp [StateCond.eval, h, Op.eval?, ha, hb]
+
+/-- adding a constraint to a `logsource` condition can only shrink the set of log sources it matches:
+if `c'` specifies everything `c` specifies (with the same values), whatever `c'` matches `c` matches -/
+theorem logsource_condition_monotone (c c' r : LogSource) (href : c.admits c' = true) (h : c'.admits r = true) :
+    c.admits r = true := by
+  obtain ⟨cc, cp, cs⟩ := c
+  obtain ⟨dc, dp, ds⟩ := c'
+  obtain ⟨rc, rp, rs⟩ := r
+  simp only [LogSource.admits, Bool.and_eq_true, Bool.or_eq_true] at *
+  obtain ⟨⟨h1, h2⟩, h3⟩ := href
+  obtain ⟨⟨g1, g2⟩, g3⟩ := h
+  refine ⟨⟨?_, ?_⟩, ?_⟩
+  · cases cc <;> cases dc <;> simp_all
+  · cases cp <;> cases dp <;> simp_all
+  · cases cs <;> cases ds <;> simp_all
+
+/-- "Not specified log source fields are ignored": the condition without constraints matches everything -/
+theorem logsource_unconstrained_matches_all (r : LogSource) : (⟨none, none, none⟩ : LogSource).admits r = true := by
+  simp [LogSource.admits]
+
+/-- a rule that contains a detection item `field = value` contains the field -/
+theorem contains_detection_item_implies_contains_field (w : World) (f : Str) (v : Scalar)
+    (h : RuleCond.eval w (.containsDetItem f v) = true) : RuleCond.eval w (.containsField f) = true := by
+  simp only [RuleCond.eval, List.any_eq_true, Bool.and_eq_true] at *
+  obtain ⟨it, hit, hf, _⟩ := h
+  exact ⟨it, hit, hf⟩
+
+/-- `contains_detection_item` distinguishes value kinds: the number 1 is not the string "1" -/
+theorem contains_detection_item_is_typed :
+    (Val.num (Num.ofInt 1)).eqParam (.str "1".toList) = false ∧ (Val.str (SStr.parse "1".toList)).eqParam (.num (Num.ofInt 1)) = false ∧
+    (Val.num (Num.ofInt 1)).eqParam (.num ⟨10, 1⟩) = true ∧ (Val.bool true).eqParam (.num (Num.ofInt 1)) = false := by decide
+
+/-- the order of severity levels (and statuses, and dates) is total and antisymmetric -/
+theorem level_order_total (i j : Nat) :
+    (Op.gte.onNat i j = true ∨ Op.gte.onNat j i = true) ∧
+    (Op.gte.onNat i j = true ∧ Op.gte.onNat j i = true → Op.eq.onNat i j = true) ∧
+    Op.gt.onNat i j = !Op.lte.onNat i j ∧ Op.lt.onNat i j = !Op.gte.onNat i j ∧ Op.ne.onNat i j = !Op.eq.onNat i j := by
+  simp only [Op.onNat, decide_eq_true_eq, beq_iff_eq]
+  refine ⟨by omega, by omega, ?_, ?_, ?_⟩
+  · by_cases h : j < i <;> simp [h] <;> omega
+  · by_cases h : i < j <;> simp [h] <;> omega
+  · simp [bne]
+
+/-- on two valid level names the `rule_attribute` comparison is defined and total -/
+theorem level_condition_total (s t : Str) (i j : Nat) (hs : enumIdx? levelNames s = some i) (ht : enumIdx? levelNames t = some j) :
+    attrEval (.level i) (.str t) (.cmp .gte) = some true ∨ attrEval (.level j) (.str s) (.cmp .gte) = some true := by
+  simp only [attrEval, hs, ht, Option.map_some]
+  have := (level_order_total i j).1
+  rcases this with h | h
+  · left; simp [h]
+  · right; simp [h]
+
+example : attrEval (.level 3) (.str "Medium".toList) (.cmp .gte) = some true := by decide
+example : attrEval (.level 3) (.str "critical".toList) (.cmp .gte) = some false := by decide
+example : attrEval (.level 3) (.str "bogus".toList) (.cmp .gte) = none := by decide
+example : attrEval (.str "t".toList) (.str "t".toList) (.cmp .gte) = none := by decide
+example : attrEval (.num (Num.ofInt 5)) (.num (Num.ofInt 7)) (.cmp .eq) = some false := by decide
+example : attrEval (.num (Num.ofInt 5)) (.str "3".toList) (.cmp .lt) = some false := by decide
+example : attrEval (.date 2024 1 5) (.str "2024-01-06".toList) (.cmp .lt) = some true := by decide
+example : attrEval (.list ["r1".toList]) (.str "r1".toList) .isIn = some true := by decide
+
+/-! ## Part 3: what later conditions observe, and the end-to-end statement -/
+
+/-- rule level: after an item, `processing_item_applied id` holds iff it held before, or the item
+carries that id and its rule conditions held -/
+theorem rule_item_applied_iff_tracked (p : PItem) (w : World) (id : Str) :
+    RuleCond.eval (p.step m w) (.itemApplied id) =
+      (RuleCond.eval w (.itemApplied id) || (p.ruleHolds w && p.id == some id)) := by
+  simp only [RuleCond.eval, PItem.step]
+  by_cases h : p.ruleHolds w = true
+  · rw [Bool.eq_iff_iff]; simp [h, act_applied, mem_mark]
+  · simp [h]
+
+/-- the rule-level condition reads the RULE's set: marking a detection item does not make it true -/
+theorem rule_item_applied_ignores_item_sets (w : World) (items : List DetItem) (id : Str) :
+    RuleCond.eval { w with items := items } (.itemApplied id) = RuleCond.eval w (.itemApplied id) := rfl
+
+/-- detection-item level: after a field-name transformation, `processing_item_applied id` holds on
+the item iff it held before, or the item carries that id, its detection-item and field-name
+conditions held on the item and its field or a field it refers to was mapped -/
+theorem item_applied_iff_tracked (p : PItem) (w w' : World) (it : DetItem) (id : Str) :
+    DetCond.eval m w' (p.mapItem m w it) (.itemApplied id) =
+      (DetCond.eval m w it (.itemApplied id) ||
+        (p.id == some id && (p.detHolds m w it && p.fieldHoldsOnItem m w it) && p.touches m w it)) := by
+  simp only [DetCond.eval, PItem.mapItem]
+  rw [Bool.eq_iff_iff]
+  by_cases hg : (p.detHolds m w it && p.fieldHoldsOnItem m w it) = true
+  · simp only [hg, if_true, Bool.and_true]
+    by_cases hc : p.touches m w it = true
+    · rw [if_pos hc, hc]; simp [mem_mark]
+    · rw [if_neg hc]; simp only [Bool.not_eq_true] at hc; rw [hc]; simp
+  · simp only [hg]; simp
+
+/-- a field-name condition `processing_item_applied` on a detection item reads the same set -/
+theorem field_applied_on_item_eq_det_applied (w : World) (it : DetItem) (id : Str) :
+    FieldCond.onItem m w it (.itemApplied id) = DetCond.eval m w it (.itemApplied id) := rfl
+
+/-- … which is not what the general rule for field-name conditions (the item's field or a
+referenced field, asked to the name tracking) would give: item `a` renamed to `b` by item `map`
+(the name tracking only follows the `fields` list and references) -/
+theorem field_applied_on_item_differs_from_general_rule :
+    let it : DetItem := { det := [], field := some "b".toList, values := [], applied := ["map".toList] }
+    FieldCond.onItem (fun _ _ => false) emptyWorld it (.itemApplied "map".toList) = true ∧
+    (FieldCond.onName (fun _ _ => false) emptyWorld it.field (.itemApplied "map".toList) ||
+      it.refs.any fun r => FieldCond.onName (fun _ _ => false) emptyWorld (some r) (.itemApplied "map".toList)) = false := by
+  decide
+
+/-- `set_state`: the value is visible to the `processing_state` conditions of later items -/
+theorem set_state_visible (p : PItem) (w : World) (k : Str) (v : Scalar) (ha : p.action = .setState k v)
+    (hr : p.ruleHolds w = true) : StateCond.eval (p.step m w).state ⟨k, v, .eq⟩ = true := by
+  simp [PItem.step, hr, PItem.act, ha, StateCond.eval, lookup, Op.eval?, scalar_eqv_refl]
+
+/-- … and only if the item's rule conditions held -/
+theorem set_state_skipped (p : PItem) (w : World) (hr : p.ruleHolds w = false) : p.step m w = w := by
+  simp [PItem.step, hr]
+
+/-- `change_logsource` replaces the log source as a whole: a later `logsource` condition sees only the new one -/
+theorem change_logsource_visible (p : PItem) (w : World) (l : LogSource) (ha : p.action = .changeLogsource l)
+    (hk : w.kind = .sigma) (hr : p.ruleHolds w = true) (c : LogSource) :
+    RuleCond.eval (p.step m w) (.logsource c) = c.admits l := by
+  simp [PItem.step, hr, PItem.act, ha, hk, RuleCond.eval]
+
+/-- after `field_name_mapping {a: b}` the conditions of later items see `b`: the item is in the rule
+under its new name, recorded as processed by the mapping; `include_fields [a]` no longer matches
+it, `include_fields [b]` does; the rule contains field `b` -/
+theorem premap_moves_items (pid a b : Str) (hab : a ≠ b) (w : World) (it : DetItem) (hit : it ∈ w.items)
+    (hf : it.field = some a) :
+    let p := plainMap pid a b
+    let w' := p.step m w
+    let it' := p.mapItem m w it
+    it' ∈ w'.items ∧ it'.field = some b ∧
+    DetCond.eval m w' it' (.itemApplied pid) = true ∧
+    FieldCond.onName m w' it'.field (.incl [a] false) = false ∧
+    FieldCond.onName m w' it'.field (.incl [b] false) = true ∧
+    RuleCond.eval w' (.containsField b) = true ∧ RuleCond.eval w' (.itemApplied pid) = true := by
+  intro p w' it'
+  have hr : p.ruleHolds w = true := by simp [p, plainMap, PItem.ruleHolds, PipeConds.Group.holds]
+  have hd : p.detHolds m w it = true := by simp [p, plainMap, PItem.detHolds, PipeConds.Group.holds]
+  have hfi : p.fieldHoldsOnItem m w it = true := by simp [p, plainMap, PItem.fieldHoldsOnItem, PipeConds.Group.holds]
+  have hmaps : p.maps m w a = true := by
+    simp [p, plainMap, PItem.maps, PItem.fieldHoldsOnName, PipeConds.Group.holds, Action.target, lookup]
+  have hren : p.rename m w a = b := by
+    simp [PItem.rename, hmaps]; simp [p, plainMap, Action.target, lookup]
+  have hitems : w'.items = w.items.map (p.mapItem m w) := by
+    simp [w', PItem.step, hr, PItem.act]; simp [p, plainMap]
+  have hfield : it'.field = some b := by
+    simp [it', PItem.mapItem, hd, hfi, hf, hren]
+  have happ : it'.applied = mark (some pid) it.applied := by
+    simp [it', PItem.mapItem, hd, hfi, PItem.touches, PItem.mapsFieldOf, hf, hmaps]; simp [p, plainMap]
+  have hmem : it' ∈ w'.items := by rw [hitems]; exact List.mem_map_of_mem hit
+  refine ⟨hmem, hfield, ?_, ?_, ?_, ?_, ?_⟩
+  · simp [DetCond.eval, happ, mem_mark]
+  · simp [hfield, FieldCond.onName, included]; exact fun h => hab h.symm
+  · simp [hfield, FieldCond.onName, included]
+  · simp only [RuleCond.eval, List.any_eq_true]; exact ⟨it', hmem, by simp [hfield]⟩
+  · have := rule_item_applied_iff_tracked m p w pid
+    rw [this, hr]; simp [p, plainMap]
+
+/-- the applied-flags of the specification's pipeline run are those of the gate model's `run`, fed
+with the specification's leaf values in the world produced by the items applied so far -/
+theorem spec_flags_eq_gate_run (items : List PItem) (w0 : World) :
+    runFlags m items w0 = Gate.run (items.map gateItem) (gateConds m items w0) 0 [] := by
+  have := runFlags_eq_gate_run_gen m w0 items [] []
+  simpa [worldOf] using this
+
+/-- the world an item sees is produced by exactly the earlier items whose rule conditions held, in order -/
+theorem spec_world_is_applied_items (items : List PItem) (w0 : World) :
+    runPipe m items w0 = worldOf m items w0 (idxFrom 0 (runFlags m items w0)) := by
+  have := runPipe_eq_worldOf_gen m w0 items [] []
+  simpa [worldOf] using this
+
+/-- END TO END.  After the pre-items, the probe's transformation is applied to detection item `it`
+iff its rule group, its detection-item group on `it` and its field-name group on `it` hold, each
+group combining — by the gate model's linking / negation / expression — the specification's leaf
+values in the world left by the pre-items that were applied; that world is the one of
+`spec_world_is_applied_items`. -/
+theorem probe_acts_iff (pre : List PItem) (probe : PItem) (w0 : World) (it : DetItem) :
+    let w := runPipe m pre w0
+    probe.actsOnItem m w it =
+      (gateItem probe).onDetItem (leafAt probe.rule (RuleCond.eval w)) (leafAt probe.det (DetCond.eval m w it))
+        (leafAt probe.field (FieldCond.onItem m w it)) ∧
+    (probe.actsOnItem m w it = true ↔
+      (gateOf probe.rule).eval (leafAt probe.rule (RuleCond.eval w)) = true ∧
+      (gateOf probe.det).eval (leafAt probe.det (DetCond.eval m w it)) = true ∧
+      (gateOf probe.field).eval (leafAt probe.field (FieldCond.onItem m w it)) = true) ∧
+    w = worldOf m pre w0 (idxFrom 0 (Gate.run (pre.map gateItem) (gateConds m pre w0) 0 [])) := by
+  intro w
+  have h1 : probe.actsOnItem m w it =
+      (gateItem probe).onDetItem (leafAt probe.rule (RuleCond.eval w)) (leafAt probe.det (DetCond.eval m w it))
+        (leafAt probe.field (FieldCond.onItem m w it)) := by
+    simp [PItem.actsOnItem, PItem.ruleHolds, PItem.detHolds, PItem.fieldHoldsOnItem, Gate.Item.onDetItem, gateItem, holds_eq_gate]
+  refine ⟨h1, ?_, ?_⟩
+  · rw [h1, onDetItem_iff]; rfl
+  · rw [← spec_flags_eq_gate_run]; exact spec_world_is_applied_items m pre w0
+
+/-- a probe without any condition acts on every detection item, whatever the pre-items did -/
+theorem probe_without_conditions_acts_everywhere (pre : List PItem) (probe : PItem) (w0 : World) (it : DetItem)
+    (hr : probe.rule.conds = []) (hd : probe.det.conds = []) (hf : probe.field.conds = []) :
+    probe.actsOnItem m (runPipe m pre w0) it = true := by
+  simp [PItem.actsOnItem, PItem.ruleHolds, PItem.detHolds, PItem.fieldHoldsOnItem, PipeConds.Group.holds, hr, hd, hf]
+
+/-- observable of the `drop_detection_item` probe: exactly the items it acts on disappear -/
+theorem drop_probe_effect (probe : PItem) (h : probe.action = .dropItem) (w : World) :
+    (probe.step m w).items = w.items.filter fun it => !probe.probeActs m w it := by
+  by_cases hr : probe.ruleHolds w = true
+  · simp [PItem.step, hr, PItem.act, h, PItem.probeActs, PItem.actsOnItem]
+  · simp only [PItem.step, hr, PItem.probeActs, h, PItem.actsOnItem]
+    exact (List.filter_eq_self.mpr (by simp)).symm
+
+/-- observable of the `field_name_suffix` probe: exactly the items whose detection-item group and
+field-name group (on the item AND on its field name) hold carry the suffix afterwards -/
+theorem suffix_probe_effect (probe : PItem) (s : Str) (h : probe.action = .suffix s) (w : World) :
+    (probe.step m w).items.map (·.field) =
+      w.items.map fun it => if probe.probeActs m w it then it.field.map (· ++ s) else it.field := by
+  by_cases hr : probe.ruleHolds w = true
+  · simp only [PItem.step, hr, if_true, PItem.act, h, List.map_map]
+    apply List.map_congr_left
+    intro it _
+    simp only [Function.comp, PItem.probeActs, h, PItem.renamesFieldOf, PItem.mapsFieldOf, PItem.actsOnItem, hr, Bool.true_and, PItem.mapItem]
+    by_cases hg : (probe.detHolds m w it && probe.fieldHoldsOnItem m w it) = true
+    · simp only [hg, if_true, Bool.true_and]
+      cases hfld : it.field with
+      | none => simp
+      | some f =>
+        by_cases hm : probe.maps m w f = true
+        · simp [hm, PItem.rename, h, Action.target]
+        · simp [hm, PItem.rename]
+    · simp only [hg]; simp
+  · have : ∀ it, probe.probeActs m w it = false := by
+      intro it; simp [PItem.probeActs, h, PItem.renamesFieldOf, PItem.actsOnItem, hr]
+    simp [PItem.step, hr, this]
+
+end Conds
+
+/-! ## Non-vacuity on the rule document of the harness (`harness/c13.py` `RULEDOC`) -/
+section Ruledoc
+open SigmaVerif.PipeConds SigmaVerif.Lemmas.C13
+
+/-- after `state` (its condition holds) and `map`, the probe acts exactly on the renamed item `mappedB = [x*, y]` -/
+example : (let w := runPipe noRe [preState "cat", preMap] ruledoc
+           w.items.map (probe1.probeActs noRe w)) = [false, true, false, false, false, false, false] := by decide
+/-- … and nowhere when the state item's own condition fails (the state is then not set) -/
+example : (let w := runPipe noRe [preState "zzz", preMap] ruledoc
+           w.items.map (probe1.probeActs noRe w)) = [false, false, false, false, false, false, false] := by decide
+/-- which items were applied: `state` (condition false) no, `map` yes, the probe (state missing) no -/
+example : runFlags noRe [preState "zzz", preMap, probe1] ruledoc = [false, true, false] := by decide
+example : (runPipe noRe [preState "cat", preMap, preLogsource, probe1] ruledoc).items.map (·.field)
+    = [some "fieldA".toList, some "mappedB_X".toList, some "fieldC".toList, some "fieldD".toList, some "fieldH".toList,
+       some "fieldA".toList, some "fieldE".toList] := by decide
+/-- the hypotheses of `premap_moves_items` are satisfiable on the document -/
+example : ∃ i ∈ ruledoc.items, i.field = some "fieldB".toList :=
+  ⟨docItem "sel" "fieldB" [sv "x*", sv "y"], by decide, rfl⟩
+/-- leaf values on the document (after `map` and `change_logsource`) -/
+example : (let w := runPipe noRe [preMap, preLogsource] ruledoc
+           [RuleCond.eval w (.logsource ⟨some "cat".toList, none, none⟩), RuleCond.eval w (.logsource ⟨some "newcat".toList, none, none⟩),
+            RuleCond.eval w (.logsource ⟨none, some "prod".toList, none⟩),
+            RuleCond.eval w (.containsField "fieldB".toList), RuleCond.eval w (.containsField "mappedB".toList),
+            RuleCond.eval w (.containsDetItem "fieldD".toList (.num (Num.ofInt 1))), RuleCond.eval w (.containsDetItem "fieldD".toList (.str "1".toList)),
+            RuleCond.eval w (.itemApplied "map".toList), RuleCond.eval w (.itemApplied "state".toList),
+            RuleCond.eval w (.attr "level".toList (.str "medium".toList) (.cmp .gte)), RuleCond.eval w (.attr "score".toList (.num (Num.ofInt 7)) (.cmp .gte)),
+            RuleCond.eval w (.tag "attack.t1234".toList), RuleCond.eval w .isSigmaRule, RuleCond.eval w .isCorrelation])
+    = [false, true, false, false, true, true, false, true, false, true, false, true, true, false] := by decide
+example : RuleCond.raises ruledoc (.attr "level".toList (.str "low".toList) .isIn) = true ∧
+          RuleCond.raises ruledoc (.attr "title".toList (.str "t".toList) (.cmp .gte)) = true ∧
+          RuleCond.raises ruledoc (.attr "nosuch".toList (.str "t".toList) (.cmp .gte)) = false := by decide
+
+end Ruledoc
 
 end SigmaVerif.Props.C13
